@@ -475,6 +475,7 @@ theorem inv_step (s : State) (op : Op) (h : Inv s) : Inv (step s op) := by
   | reset => exact inv_clear s h
   | send rid delay => exact inv_send s rid delay h
   | broadcast ty delay => exact inv_sendAll delay _ s h
+  | randomEvents ty num delay draws => exact inv_sendAll delay _ s h
   | step => exact inv_stepFn s h
 
 /-- The invariant holds in every reachable state. -/
@@ -683,6 +684,46 @@ example : demo.dropped.map (fun d => (d.step, d.msg.seq, d.live)) = [(1, 2, [0, 
 example : (run State.init [.create 0, .send 0 2, .send 0 0, .send 0 2, .step, .step, .step]).log.map
     (fun h => (h.step, h.agent, h.msg.seq)) = [(1, 0, 1), (3, 0, 0), (3, 0, 2)] := by decide
 example : stepsOf 1 4 1 10 = 3 ∧ stepsOf 0 1 1 10 = 0 ∧ stepsOf 7 10 1 20 = 14 := by decide
+
+/-! ## Wave 2 — `random_events` / `broadcast_event` through the type map
+
+`Op.randomEvents` is part of the base alphabet, so `C11_full` covers it. In addition: whatever the random numbers
+are, every event `random_events` creates is addressed to a live agent of the requested type, there are
+`min(num, count of that type)` of them; `broadcast_event` addresses every live agent of the type exactly once. -/
+
+theorem pick_length (ids : List Nat) (num : Nat) (draws : List Nat) : (pick ids num draws).length = min num ids.length := by
+  simp [pick]
+
+theorem pick_mem (ids : List Nat) (num : Nat) (draws : List Nat) : ∀ i ∈ pick ids num draws, i ∈ ids := by
+  intro i hi
+  simp only [pick, List.mem_map, List.mem_range] at hi
+  obtain ⟨j, hj, rfl⟩ := hi
+  have hpos : 0 < ids.length := by omega
+  have hlt : draws.getD j 0 % ids.length < ids.length := Nat.mod_lt _ hpos
+  rw [List.getD_eq_getElem?_getD, List.getElem?_eq_getElem hlt]
+  exact List.getElem_mem hlt
+
+theorem idsOfType_live (as : List Agent) (ty : Nat) : ∀ i ∈ idsOfType as ty, ∃ a ∈ as, a.id = i ∧ a.ty = ty := by
+  intro i hi
+  simp only [idsOfType, List.mem_map, List.mem_filter, beq_iff_eq] at hi
+  obtain ⟨a, ⟨ha, hty⟩, rfl⟩ := hi
+  exact ⟨a, ha, rfl, hty⟩
+
+theorem sendAll_sent (delay : Nat) (ids : List Nat) : ∀ s, (sendAll s delay ids).sent.map (·.rid) = s.sent.map (·.rid) ++ ids := by
+  induction ids with
+  | nil => intro s; simp [sendAll]
+  | cons i rest ih => intro s; simp only [sendAll]; rw [ih]; simp [send]
+
+/-- the receivers of the events created by `random_events` are live agents of the type, `min(num, count)` many -/
+theorem randomEvents_receivers (s : State) (ty num delay : Nat) (draws : List Nat) :
+    ∃ rs, (randomEvents s ty num delay draws).sent.map (·.rid) = s.sent.map (·.rid) ++ rs ∧
+      rs.length = min num (idsOfType s.agents ty).length ∧ ∀ i ∈ rs, ∃ a ∈ s.agents, a.id = i ∧ a.ty = ty :=
+  ⟨_, sendAll_sent delay _ s, pick_length _ _ _, fun i hi => idsOfType_live _ _ i (pick_mem _ _ _ i hi)⟩
+
+/-- the receivers of the events created by `broadcast_event` are exactly the live agents of the type, in list order -/
+theorem broadcast_receivers (s : State) (ty delay : Nat) :
+    (broadcast s ty delay).sent.map (·.rid) = s.sent.map (·.rid) ++ idsOfType s.agents ty :=
+  sendAll_sent delay _ s
 
 /-! ## Wave 2a — population changes and sends during a step
 
@@ -1404,6 +1445,7 @@ theorem xinv_step (x : XState) (op : XOp) (h : XInv x) : XInv (xstep x op) := by
     | reset => exact xinv_clear x h
     | send rid delay => exact xinv_sendX x rid delay 0 false h
     | broadcast ty delay => exact xinv_sendAll delay _ x h
+    | randomEvents ty num delay draws => exact xinv_sendAll delay _ x h
     | step => exact xinv_stepFn x h
   | createT ty m => exact { xinv_create x ty h with }
   | setState i st => exact { h with }
@@ -1573,6 +1615,7 @@ theorem plain_step (s : State) (o : Op) (h : Inv s) (hp : ∀ e ∈ s.events, Pl
   | reset => exact hp
   | send rid delay => exact sendAll_plain delay [rid] s hp
   | broadcast ty delay => exact sendAll_plain delay _ s hp
+  | randomEvents ty num delay draws => exact sendAll_plain delay _ s hp
   | step =>
     intro e he
     simp only [step] at he
@@ -1593,6 +1636,7 @@ theorem xstep_base (s : State) (o : Op) (h : Inv s) (hp : ∀ e ∈ s.events, Pl
   | reset => simp [xstep, ofBase, XState.init, hemp, step]
   | send rid delay => rfl
   | broadcast ty delay => rfl
+  | randomEvents ty num delay draws => rfl
   | step => exact xstepFn_base s h hp
 
 theorem xrun_base_aux (ops : List Op) : ∀ s, Inv s → (∀ e ∈ s.events, PlainEv e) →
@@ -1856,6 +1900,8 @@ example : CeilRound9 (10 ^ 6 / 2 ^ 51) (10 ^ 6 / 2 ^ 53) ((10 : ℚ) / 1) 10 :=
 #print axioms C11_witness_float_countdown
 #print axioms C11_witness_positional
 #print axioms C11_witness_requeue_reversal
+#print axioms randomEvents_receivers
+#print axioms broadcast_receivers
 #print axioms midStep_linear
 #print axioms mrun_linear
 #print axioms C11_midstep
